@@ -355,10 +355,24 @@ class Store:
         """Find an integer valuation satisfying all constraints plus `extra`
         (each Lin >= 0).  Returns dict or None."""
         cons = [self.canon(k) for k in self.cons] + [self.canon(k) for k in extra]
-        opaque = self.__dict__.get('opaque', ())
-        if opaque and any(x in opaque for k in cons for x in k.syms()):
-            # feasibility or the violation rests on the value of an unmodelled operation: no witness is claimed
-            return None
+        opaque = set(self.__dict__.get('opaque', ()))
+        if opaque:
+            # definitional constraints (q, r of a division...) hold whatever the opaque value is, but what they define from
+            # an opaque value is opaque too
+            defs = [self.canon(k) for k in self.__dict__.get('definitional', ())]
+            for _ in range(4):
+                grown = False
+                for k in defs:
+                    sy = set(k.syms())
+                    if sy & opaque and not sy <= opaque:
+                        opaque |= sy
+                        grown = True
+                if not grown:
+                    break
+            defset = set(defs)
+            if any(x in opaque for k in cons if k not in defset for x in k.syms()):
+                # feasibility or the violation rests on the value of an unmodelled operation: no witness is claimed
+                return None
         syms = []
         for k in cons:
             for s in k.syms():
@@ -504,6 +518,7 @@ class Store:
         st.__dict__['decl'] = dict(self.__dict__.get('decl', {}))
         st.__dict__['width_of'] = dict(self.__dict__.get('width_of', {}))
         st.__dict__['opaque'] = set(self.__dict__.get('opaque', ()))
+        st.__dict__['definitional'] = list(self.__dict__.get('definitional', ()))
         return st
 
 
